@@ -1,1 +1,31 @@
+pub mod c02;
 pub mod c03;
+pub mod c05;
+pub mod c06;
+pub mod c09;
+
+use crate::report::Tier;
+use serde_json::Value;
+
+pub fn check(id: &str, tier: Tier, seed: u64) -> Option<i32> {
+    Some(match id {
+        "C02" => c02::check(tier, seed),
+        "C03" => c03::check(tier, seed),
+        "C05" => c05::check(tier, seed),
+        "C06" => c06::check(tier, seed),
+        "C09" => c09::check(tier, seed),
+        _ => return None,
+    })
+}
+
+/// Some(Some(class)) reproduced, Some(None) not reproduced, None unknown property
+pub fn replay(id: &str, doc: &Value) -> Option<Option<String>> {
+    Some(match id {
+        "C02" => c02::replay(doc),
+        "C03" => c03::replay(doc),
+        "C05" => c05::replay(doc),
+        "C06" => c06::replay(doc),
+        "C09" => c09::replay(doc),
+        _ => return None,
+    })
+}
